@@ -1,10 +1,136 @@
 import Model.Common.Proto
-open Btc
+import Model.Common.HashProto
+import Model.Common.ECProto
+import Model.C16.Musig2
+import Generated.Interactive
+open Btc Btc.Py Btc.C16
 
-/-- line protocol of property C16: see harness/c16.py -/
-def handle : List String → String
-  -- one line per generated module this driver serves, e.g.
-  -- | "gen" :: "VarInt" :: fn :: args => (Gen.VarInt.dispatch fn args).getD "bad-op"
-  | _ => "bad-op"
+/-! line protocol of property C16: see harness/c16.py
+
+tokens: bytes = hex (`_` empty); list = comma-joined elements (`-` empty list); optional = `None`;
+tweak list element = `<hex>:<0|1>`; a session context is five tokens
+`<aggnonce> <pks> <tweaks> <msg> <adaptor|None>`. -/
+
+namespace C16Drv
+
+def O := EC.ops EC.secp256k1
+def Hh : Bytes → Bytes → Bytes := taggedHash
+
+def listOf? (f : String → Option α) (s : String) : Option (List α) :=
+  if s == "-" then some [] else (s.splitOn ",").mapM f
+
+def bytesList? (s : String) : Option (List Bytes) := listOf? fromHex? s
+
+def tweak? (s : String) : Option (Bytes × Bool) :=
+  match s.splitOn ":" with
+  | [h, "0"] => (fromHex? h).map (·, false)
+  | [h, "1"] => (fromHex? h).map (·, true)
+  | _ => none
+
+def optBytes? (s : String) : Option (Option Bytes) :=
+  if s == "None" then some none else (fromHex? s).map some
+
+def optInt? (s : String) : Option (Option Int) :=
+  if s == "None" then some none else (parseInt? s).map some
+
+def ctx? (an pks tws msg ad : String) : Option SessionCtx := do
+  pure ⟨← fromHex? an, ← bytesList? pks, ← listOf? tweak? tws, ← fromHex? msg, ← optBytes? ad⟩
+
+def errS (e : PyErr) : String := "err " ++ e.name
+
+def rend (f : α → String) : R α → String
+  | .ok v => "ok " ++ f v
+  | .error e => errS e
+
+def rBool (b : Bool) : String := if b then "True" else "False"
+def rKc (c : KeyAggCtx EC.Point) : String := s!"{c.Q.1} {c.Q.2} {c.gacc} {c.tacc}"
+def rList (l : List Bytes) : String := if l.isEmpty then "-" else ",".intercalate (l.map toHex)
+
+/-- a context whose sizes `SessionContext.__init__` refuses answers `err value` before anything else -/
+def withCtx (c : Option SessionCtx) (k : SessionCtx → String) : String :=
+  match c with
+  | none => "bad-op"
+  | some c => if c.wf then k c else "err value"
+
+def insertSorted (b : Bytes) : List Bytes → List Bytes
+  | [] => [b]
+  | x :: xs => if decide (b ≤ x) then b :: x :: xs else x :: insertSorted b xs
+
+def keySort (pks : List Bytes) : R (List Bytes) :=
+  if pks.any (fun pk => pk.length ≠ pkSize) then .error .value
+  else .ok (pks.foldr insertSorted [])
+
+def musig : List String → Option String
+  | ["musig.individual_pub_key", d] => do
+    let d ← parseInt? d
+    pure (if scalarOk O d then "ok " ++ toHex (individualPubKey O d) else "err value")
+  | ["musig.key_sort", pks] => do
+    pure (rend rList (keySort (← bytesList? pks)))
+  | ["musig.key_agg", pks] => do
+    pure (rend rKc (keyAgg O Hh (← bytesList? pks)))
+  | ["musig.key_agg_and_tweak", pks, tws] => do
+    pure (rend rKc (keyAggAndTweak O Hh (← bytesList? pks) (← listOf? tweak? tws)))
+  | ["musig.nonce_gen", rand, prv, pk, aggpk, msg, extra] => do
+    pure (rend (fun (p : Bytes × Bytes) => toHex p.1 ++ " " ++ toHex p.2)
+      (nonceGen O Hh (← fromHex? rand) (← optInt? prv) (← fromHex? pk) (← optBytes? aggpk) (← optBytes? msg)
+        (← optBytes? extra)))
+  | ["musig.nonce_agg", pns] => do
+    pure (rend toHex (nonceAgg O (← bytesList? pns)))
+  | ["musig.session_values", an, pks, tws, msg, ad] =>
+    some <| withCtx (ctx? an pks tws msg ad) fun c =>
+      rend (fun (v : SessionValues EC.Point) =>
+        s!"{v.Q.1} {v.Q.2} {v.gacc} {v.tacc} {v.b} {v.R.1} {v.R.2} {v.e}") (sessionValues O Hh c)
+  | ["musig.sign", sn, prv, an, pks, tws, msg, ad] => do
+    let sn ← fromHex? sn
+    let prv ← parseInt? prv
+    pure <| withCtx (ctx? an pks tws msg ad) fun c =>
+      if sn.length ≠ 97 then "bad-op" else rend toHex (signBytes O Hh sn prv c)
+  | ["musig.det_sign", prv, ao, pks, tws, msg, rand] => do
+    pure (rend (fun (p : Bytes × Bytes) => toHex p.1 ++ " " ++ toHex p.2)
+      (deterministicSign O Hh (← parseInt? prv) (← fromHex? ao) (← bytesList? pks) (← listOf? tweak? tws)
+        (← fromHex? msg) (← optBytes? rand)))
+  | ["musig.psig_verify", psig, pn, pk, an, pks, tws, msg, ad] => do
+    let psig ← fromHex? psig
+    let pn ← fromHex? pn
+    let pk ← fromHex? pk
+    pure <| withCtx (ctx? an pks tws msg ad) fun c => rend rBool (partialSigVerify O Hh psig pn pk c)
+  | ["musig.psig_agg", psigs, an, pks, tws, msg, ad] => do
+    let psigs ← bytesList? psigs
+    pure <| withCtx (ctx? an pks tws msg ad) fun c =>
+      rend (fun (p : Int × Int) => s!"{p.1} {p.2}") (partialSigAgg O Hh psigs c)
+  | ["musig.psig_agg_adaptor", psigs, an, pks, tws, msg, ad] => do
+    let psigs ← bytesList? psigs
+    pure <| withCtx (ctx? an pks tws msg ad) fun c =>
+      rend (fun (p : Int × Int) => s!"{p.1} {p.2}") (partialSigAggAdaptor O Hh psigs c)
+  | ["musig.adapt", r, s, t, an, pks, tws, msg, ad] => do
+    let pre := (← parseInt? r, ← parseInt? s)
+    let t ← parseInt? t
+    pure <| withCtx (ctx? an pks tws msg ad) fun c =>
+      rend (fun (p : Int × Int) => s!"{p.1} {p.2}") (adapt O Hh pre t c)
+  | ["musig.extract", r, s, pr, ps, an, pks, tws, msg, ad] => do
+    let sig := (← parseInt? r, ← parseInt? s)
+    let pre := (← parseInt? pr, ← parseInt? ps)
+    pure <| withCtx (ctx? an pks tws msg ad) fun c =>
+      rend (fun t => toHex (sBytes t)) (extractAdaptor O Hh sig pre c)
+  | ["bip340.verify", xq, msg, r, s] => do
+    pure ("ok " ++ rBool (bip340Verify O Hh (← parseInt? xq) (← fromHex? msg) (← parseInt? r) (← parseInt? s)))
+  | _ => none
+
+end C16Drv
+
+def handle (toks : List String) : String :=
+  match toks with
+  | "gen" :: "Interactive" :: fn :: args => (Gen.Interactive.dispatch fn args).getD "bad-op"
+  | _ =>
+    match hashOp toks with
+    | some r => r
+    | none =>
+      match EC.ecOp toks with
+      | some r => r
+      | none =>
+        match toks with
+        | t :: _ =>
+          if t.startsWith "musig." || t.startsWith "bip340." then (C16Drv.musig toks).getD "bad-op" else "bad-op"
+        | [] => "bad-op"
 
 def main : IO Unit := runLoop handle
